@@ -38,7 +38,20 @@ def _hygiene(fl, f0, f1, f2, order):
     try:
         fates = [FATES[f0], FATES[f1], FATES[f2]]
         clients, sids, accepted = [], [], []
-        st = dict(flavour=sut.flavour, fates=repr(fates))
+        st = dict(flavour=sut.flavour, fates=repr(fates), after_disconnect_all=bool(order))
+        if order:
+            # earlier in the life of this server: one WebSocket client connected and the application then called disconnect()
+            # for everybody (the monitor is already running when the sessions of this history arrive)
+            c0 = _Client(sut, True)
+            sut.run(until=sut.k.now + 1)
+            sut.app_disconnect()
+            sut.settle()
+            c0.peer.close()
+            sut.settle()
+            sut.run(until=sut.k.now + 1)
+            if sut.srv.sockets:
+                return fail(PROP, 'TABLE-CONTENT', 'after disconnect() for all sessions the table holds %d sessions' % len(sut.srv.sockets), **st)
+            del sut.events[:]
         for i, fate in enumerate(fates):
             if fate == 'absent':
                 clients.append(None)
@@ -209,12 +222,13 @@ def _hygiene(fl, f0, f1, f2, order):
 
 @cond(quick=dict(timeout=170, parts=dict(FL=[0, 1], F0=[0, 1, 2, 3, 4, 5, 6, 7, 8, 9, 10, 11, 12, 14, 15, 16])),
       thorough=dict(timeout=900, parts=dict(FL=[0, 1], F0=[0, 1, 2, 3, 4, 5, 6, 7, 8, 9, 10, 11, 12, 14, 15, 16])))
-def table_after_history(fl: int, f0: int, f1: int, f2: int) -> str:
+def table_after_history(fl: int, f0: int, f1: int, f2: int, prior: bool) -> str:
     """
     pre: fl == P.FL and f0 == P.F0 and 0 <= f1 < len(FATES) and 0 <= f2 < len(FATES) and (f1 != 13 or f2 == 13)
+    pre: not prior or f2 == 13
     post: _ == ''
     """
-    return verdict(untraced(_hygiene, fl, f0, f1, f2, 0))
+    return verdict(untraced(_hygiene, fl, f0, f1, f2, 1 if prior else 0))
 
 
 from vf.validate.stubs import ALL as VALIDATE  # noqa: E402  (stub-vs-real conformance, run before the obligations)
